@@ -14,6 +14,7 @@ import Nstd.Rc.Model
                                                                  that the assignment releases)
       `xAddC d s`    X[d].toElement().content.append(X[s])
       `xGetC d s k`  X[d] = k-th child of ((const Xml::Variant&)X[s]).toElement()
+      `aPushV d s`, `aGetV d s k`  the same as `vPushV` / `vGetV` on an Array<Variant> payload (`toArray()`)
     and the list / element calls of Model.lean whose clone or in-place path has to copy or release the embedded
     handles (`vPush`, `vSetList`, `xElem`).
   Core Lean only (the driver links this file).
@@ -64,6 +65,8 @@ inductive NOp
   | vGetV (d s k : Nat)
   | xAddC (d s : Nat)
   | xGetC (d s k : Nat)
+  | aPushV (d s : Nat)      -- V[d].toArray().append(V[s])
+  | aGetV (d s k : Nat)     -- V[d] = ((const Variant&)V[s]).toArray()[k]
 deriving Repr
 
 def blkOfTag (st : St) (d tag : Nat) : Option Nat :=
@@ -133,6 +136,9 @@ def preN (st : St) (tid : Nat) : NOp → List Act
   | .xAddC d s =>
     if d = s ∨ (st.slots s).isBlk = false then [.move d d] else [.readRef d (blkTag st d == some tagXElem)]
   | .vGetV d s k => getEmb st tid d s k tagVList true
+  | .aPushV d s =>
+    if d = s ∨ isNoneH st s = true then [.move d d] else [.readRef d (blkTag st d == some tagVArr)]
+  | .aGetV d s k => getEmb st tid d s k tagVArr true
   | .xGetC d s k => getEmb st tid d s k tagXElem false
 
 /-- release all embedded handles of block c (the sole owner, through its slot d): `List::clear()` of an in-place
@@ -147,6 +153,11 @@ def postN (st : St) (tid : Nat) : NOp → List Act
     if isWriting st tid then
       [.write [x]] ++ (match blkOfTag st d tagVList with | some c => dropEmb tid c d (embKs st c) | none => [])
     else cloneReleaseFirst d tagVList [x]
+  | .flat (.vPushA d x) => appendN st tid d tagVArr x none true
+  | .flat (.vSetArr d x) =>
+    if isWriting st tid then
+      [.write [x]] ++ (match blkOfTag st d tagVArr with | some c => dropEmb tid c d (embKs st c) | none => [])
+    else cloneReleaseFirst d tagVArr [x]
   | .flat (.xElem d bytes) =>
     if isWriting st tid then [.write bytes]
     else match blkOfTag st d tagXElem with
@@ -157,8 +168,10 @@ def postN (st : St) (tid : Nat) : NOp → List Act
   | .flat op => post st tid op
   | .vPushV d s => appendN st tid d tagVList (elemVal st s) (some s) true
   | .xAddC d s => appendN st tid d tagXElem 0 (some s) false
+  | .aPushV d s => appendN st tid d tagVArr (elemVal st s) (some s) true
   | .vGetV .. => []
   | .xGetC .. => []
+  | .aGetV .. => []
 
 /-- single-threaded semantics of one call, with the destructor cascade -/
 def apiStepN (st : St) (tid : Nat) (op : NOp) : Option St :=
